@@ -82,6 +82,10 @@ pub struct CodecCase {
     /// at the end
     #[serde(default)]
     pub mid_flush: u32,
+    /// before the case proper, the same thread decodes a damaged stream (which must fail or
+    /// not, but must not influence what follows): 0 = no, else codec of the damaged stream
+    #[serde(default)]
+    pub poison: u8,
 }
 
 pub struct Codec;
@@ -141,14 +145,15 @@ impl Scenario for Codec {
             _ => 7,
         };
         // multi-megabyte inputs: rare, and mostly the highly compressible kinds
-        let big = rng.chance(if tier == Tier::Thorough { 2 } else { 1 });
+        let big = rng.chance(if tier == Tier::Thorough { 3 } else { 2 });
         let max = if big { 8 << 20 } else { 64 << 10 };
         let len = if big { rng.range(1 << 20, max) as u32 } else { rng.log_range(1, max) as u32 };
         if big && rng.chance(70) {
             kind = *rng.pick(&[6u8, 7, 7, 2]);
         }
         let ic = if rng.chance(6) { 0 } else { 1 + rng.below(4) as u8 };
-        let path = rng.below(5) as u8;
+        // multi-megabyte inputs go through the one-shot helpers half of the time
+        let path = if big && rng.chance(50) { 0 } else { rng.below(5) as u8 };
         let asyncish = path >= 3;
         let chunks = match rng.below(6) {
             0 => Xfer::Full,
@@ -172,7 +177,7 @@ impl Scenario for Codec {
                 pol.wr = Xfer::Fixed(1000);
             }
         }
-        to_value(&CodecCase { data: DataSpec { kind, seed: rng.next_u64(), len }, ic, path, chunks, pol, upstream_input: rng.chance(50), pycheck: run % 97 == 0, mid_flush: if rng.chance(35) { 1 + rng.below(5) as u32 } else { 0 } })
+        to_value(&CodecCase { data: DataSpec { kind, seed: rng.next_u64(), len }, ic, path, chunks, pol, upstream_input: rng.chance(50), pycheck: run % 97 == 0, mid_flush: if rng.chance(35) { 1 + rng.below(5) as u32 } else { 0 }, poison: if rng.chance(30) { 2 + rng.below(3) as u8 } else { 0 } })
     }
     fn execute(&self, case: &Value, ctx: &mut Ctx) -> V<()> {
         let c: CodecCase = from_value(case);
@@ -186,6 +191,21 @@ impl Scenario for Codec {
             return check_unknown(&data, ctx);
         }
         ctx.bump(&format!("path_{}_codec_{}", c.path, c.ic), 1);
+        if c.poison != 0 {
+            // a failed decode earlier on this thread must leave no trace in later calls
+            let junk = DataSpec { kind: 3, seed: c.data.seed ^ 0x51, len: 50_000 }.bytes();
+            let mut z = spec::compress(c.poison, &junk).expect("oracle codec");
+            z.truncate(z.len() * 3 / 4);
+            let pc = sut::comp(c.poison);
+            let _ = sut::guard("decompress_all(damaged)", || pmtiles2::util::decompress_all(pc, &z).map(|v| v.len()))?;
+            let mut cur = std::io::Cursor::new(z);
+            let _ = sut::guard("decompress(damaged)", || -> std::io::Result<usize> {
+                let mut r = pmtiles2::util::decompress(pc, &mut cur)?;
+                let mut sink = Vec::new();
+                r.read_to_end(&mut sink)
+            })?;
+            ctx.bump("fired_damaged_stream_before_case", 1);
+        }
         let mut produced: Option<Vec<u8>> = None;
         match c.path {
             0 => {
@@ -329,6 +349,9 @@ impl Scenario for Codec {
         }
         if c.mid_flush != 0 {
             out.push(to_value(&CodecCase { mid_flush: 0, ..c.clone() }));
+        }
+        if c.poison != 0 {
+            out.push(to_value(&CodecCase { poison: 0, ..c.clone() }));
         }
         out
     }
@@ -707,12 +730,13 @@ fn shrink_header(h: &SpecHeader) -> Vec<SpecHeader> {
 
 #[derive(Clone, Debug, Serialize, Deserialize)]
 pub enum RejectCase {
-    /// directory of n entries with a zero length at index `at`
-    ZeroLen { n: u32, at: u32, seed: u64, ic: u8, via: u8, pol: Policy },
+    /// directory of n entries with a zero length at index `at`; `wide` > 0 encodes the length as
+    /// wide·2^32 instead of a literal 0 (zero once stored in the 32-bit field)
+    ZeroLen { n: u32, at: u32, seed: u64, ic: u8, via: u8, pol: Policy, #[serde(default)] wide: u8 },
     /// archive whose metadata is valid JSON but not an object
     BadMeta { kind: u8, ic: u8, face: Face, pol: Policy, with_tiles: bool },
     /// 'unknown' internal compression
-    UnknownIc { write: bool, with_meta: bool, face: Face, tiles: u32 },
+    UnknownIc { write: bool, with_meta: bool, face: Face, tiles: u32, #[serde(default)] empty_root: bool },
 }
 
 pub struct Rejections;
@@ -773,10 +797,13 @@ impl Scenario for Rejections {
                     1 => n - 1,
                     _ => rng.below(u64::from(n)) as u32,
                 };
-                RejectCase::ZeroLen { n, at, seed: rng.next_u64(), ic: 1 + rng.below(4) as u8, via: rng.below(8) as u8, pol }
+                let wide = if rng.chance(25) { 1 + rng.below(3) as u8 } else { 0 };
+                // a length of k·2^32 cannot be given to the serialisers (their field is 32 bit)
+                let via = if wide > 0 { rng.below(6) as u8 } else { rng.below(8) as u8 };
+                RejectCase::ZeroLen { n, at, seed: rng.next_u64(), ic: 1 + rng.below(4) as u8, via, pol, wide }
             }
             6 | 7 => RejectCase::BadMeta { kind: rng.below(8) as u8, ic: 1 + rng.below(4) as u8, face, pol, with_tiles: rng.chance(50) },
-            _ => RejectCase::UnknownIc { write: rng.chance(50), with_meta: rng.chance(50), face, tiles: rng.below(4) as u32 },
+            _ => RejectCase::UnknownIc { write: rng.chance(50), with_meta: rng.chance(50), face, tiles: rng.below(4) as u32, empty_root: rng.chance(30) },
         };
         to_value(&c)
     }
@@ -785,28 +812,49 @@ impl Scenario for Rejections {
         ctx.sig(case_sig(case));
         let c: RejectCase = from_value(case);
         match c {
-            RejectCase::ZeroLen { n, at, seed, ic, via, pol } => {
+            RejectCase::ZeroLen { n, at, seed, ic, via, pol, wide } => {
                 let (mut es, data) = simple_entries(n as usize, seed);
                 es[at as usize].length = 0;
-                let plain = spec::encode_dir(&es);
+                let plain = if wide == 0 {
+                    spec::encode_dir(&es)
+                } else {
+                    // same directory, but the offending length column value is wide·2^32
+                    let mut lens: Vec<u64> = es.iter().map(|e| u64::from(e.length)).collect();
+                    lens[at as usize] = u64::from(wide) << 32;
+                    let mut deltas = Vec::new();
+                    let mut last = 0u64;
+                    for e in &es {
+                        deltas.push(e.tile_id - last);
+                        last = e.tile_id;
+                    }
+                    let runs: Vec<u64> = es.iter().map(|e| u64::from(e.run_length)).collect();
+                    let offs: Vec<u64> = es.iter().map(|e| e.offset + 1).collect();
+                    spec::encode_dir_raw(es.len() as u64, &deltas, &runs, &lens, &offs)
+                };
                 let enc = spec::compress(ic, &plain).expect("oracle codec");
                 let comp = sut::comp(ic);
                 ctx.bump(&format!("zero_len_via_{via}"), 1);
+                let no_zero = |r: std::io::Result<Directory>| match r {
+                    Err(_) => true,
+                    // a value of k·2^32 may be refused as out of range; what must never come out is
+                    // a parsed directory that contains an entry of length 0
+                    Ok(d) => wide > 0 && (&d).into_iter().all(|e| e.length != 0),
+                };
                 let refused: bool = match via {
-                    0 => sut::guard("Directory::from_bytes", || Directory::from_bytes(&enc, comp).is_err())?,
+                    0 => no_zero(sut::guard("Directory::from_bytes", || Directory::from_bytes(&enc, comp))?),
                     1 => {
                         let mut d = SimDisk::new(enc.clone(), &pol);
                         let len = enc.len() as u64;
-                        let r = sut::guard("Directory::from_reader", || Directory::from_reader(&mut d, len, comp).is_err())?;
+                        let r = sut::guard("Directory::from_reader", || Directory::from_reader(&mut d, len, comp))?;
                         ctx.absorb(&d);
-                        r
+                        no_zero(r)
                     }
                     2 => {
                         let mut d = SimDisk::new(enc.clone(), &pol);
                         let len = enc.len() as u64;
-                        let r = sut::guard_async("Directory::from_async_reader", Directory::from_async_reader(&mut d, len, comp))?.is_err();
+                        let r = sut::guard_async("Directory::from_async_reader", Directory::from_async_reader(&mut d, len, comp))?;
                         ctx.absorb(&d);
-                        r
+                        no_zero(r)
                     }
                     3 => {
                         let meta = spec::compress(ic, b"{}").expect("oracle codec");
@@ -843,7 +891,7 @@ impl Scenario for Rejections {
                         sut::guard_async("Directory::to_async_writer", d.to_async_writer(&mut out, comp))?.is_err()
                     }
                 };
-                ensure!(refused, format!("C19:zero-length-accepted:via-{via}"), "a directory of {n} entries with length 0 at index {at} was accepted (path {via}, codec {ic})");
+                ensure!(refused, format!("C19:zero-length-accepted:via-{via}"), "a directory of {n} entries whose entry {at} has length 0 (encoded as {}) was accepted (path {via}, codec {ic})", if wide == 0 { "0".to_string() } else { format!("{wide}·2^32") });
             }
             RejectCase::BadMeta { kind, ic, face, pol, with_tiles } => {
                 let (es, data) = if with_tiles { simple_entries(3, u64::from(kind)) } else { (Vec::new(), Vec::new()) };
@@ -862,7 +910,7 @@ impl Scenario for Rejections {
                     ctx.bump("control_archive_rejected", 1);
                 }
             }
-            RejectCase::UnknownIc { write, with_meta, face, tiles } => {
+            RejectCase::UnknownIc { write, with_meta, face, tiles, empty_root } => {
                 if write {
                     let mut pm: sut::Pm = pmtiles2::PMTiles::default();
                     pm.internal_compression = pmtiles2::Compression::Unknown;
@@ -876,8 +924,9 @@ impl Scenario for Rejections {
                     let r = sut::save(pm, &mut out, face)?;
                     ensure!(r.is_err(), "C19:unknown-compression-written", "writing with internal compression 'unknown' succeeded ({} bytes on the stream)", out.image_len());
                 } else {
-                    let (es, data) = simple_entries(tiles as usize, 7);
-                    let root = spec::encode_dir(&es);
+                    let (es, data) = if empty_root { (Vec::new(), Vec::new()) } else { simple_entries(tiles as usize, 7) };
+                    // with empty_root the root section has length 0 (nothing to decode at all)
+                    let root = if empty_root { Vec::new() } else { spec::encode_dir(&es) };
                     let meta: &[u8] = if with_meta { b"{}" } else { b"" };
                     let n = es.len() as u64;
                     let img = assemble(0, &root, meta, &[], &data, (n, n, n));
@@ -892,16 +941,16 @@ impl Scenario for Rejections {
         let c: RejectCase = from_value(case);
         let mut out = Vec::new();
         match &c {
-            RejectCase::ZeroLen { n, at, seed, ic, via, pol } => {
+            RejectCase::ZeroLen { n, at, seed, ic, via, pol, wide } => {
                 if *n > 1 {
-                    out.push(to_value(&RejectCase::ZeroLen { n: 1, at: 0, seed: *seed, ic: *ic, via: *via, pol: pol.clone() }));
-                    out.push(to_value(&RejectCase::ZeroLen { n: at + 1, at: *at, seed: *seed, ic: *ic, via: *via, pol: pol.clone() }));
+                    out.push(to_value(&RejectCase::ZeroLen { n: 1, at: 0, seed: *seed, ic: *ic, via: *via, pol: pol.clone(), wide: *wide }));
+                    out.push(to_value(&RejectCase::ZeroLen { n: at + 1, at: *at, seed: *seed, ic: *ic, via: *via, pol: pol.clone(), wide: *wide }));
                 }
                 if *ic != 1 {
-                    out.push(to_value(&RejectCase::ZeroLen { n: *n, at: *at, seed: *seed, ic: 1, via: *via, pol: pol.clone() }));
+                    out.push(to_value(&RejectCase::ZeroLen { n: *n, at: *at, seed: *seed, ic: 1, via: *via, pol: pol.clone(), wide: *wide }));
                 }
                 for p in shrink_policy(pol) {
-                    out.push(to_value(&RejectCase::ZeroLen { n: *n, at: *at, seed: *seed, ic: *ic, via: *via, pol: p }));
+                    out.push(to_value(&RejectCase::ZeroLen { n: *n, at: *at, seed: *seed, ic: *ic, via: *via, pol: p, wide: *wide }));
                 }
             }
             RejectCase::BadMeta { kind, ic, face, pol, with_tiles } => {
